@@ -11,11 +11,12 @@ static uint32_t rd32(const uint8_t *p) { return p[0] | p[1] << 8 | p[2] << 16 | 
 static uint64_t rd64(const uint8_t *p) { return rd32(p) | (uint64_t)rd32(p + 4) << 32; }
 
 // ---------------------------------------------------------------- LZMA2
+int ref_lzma2_preset_dict;	// raw LZMA2 with a preset dictionary: the first chunk need not reset the dictionary (liblzma extension for raw streams)
 size_t ref_progress_out;	// output position after the last completely decoded LZMA2 chunk (for prefix checks)
 uint32_t ref_lzma2_dict_size(unsigned b) { if (b > 40) return 0; if (b == 40) return 0xFFFFFFFFu; return (2u | (b & 1)) << (b / 2 + 11); }
 // Decodes an LZMA2 stream starting at in[*pos]; stops after the end marker. Output appended to w.
 int ref_lzma2_decode(const uint8_t *in, size_t *pos, size_t n, ref_window *w, ref_lzma2_stats *st) {
-	static ref_lzma_model m; int need_dict = 1, need_props = 1; unsigned lc = 0, lp = 0, pb = 0; int have_model = 0;
+	static ref_lzma_model m; int need_dict = !ref_lzma2_preset_dict, need_props = 1; unsigned lc = 0, lp = 0, pb = 0; int have_model = 0;
 	for (;;) {
 		if (*pos >= n) return REF_ERR_TRUNC;
 		unsigned c = in[(*pos)++]; if (st) st->chunks++;
